@@ -24,6 +24,10 @@ CHECKS["C08"] = dict(engine="E2", level="exploration", technique="deterministic 
    text="Programs of 2-8 clients on a shared MemFS (per-client Sub views, distinct users, umask/cwd setters), a shared OrefaFS, a shared MemIdm, with own handles and a handle shared by all clients, run under the serialising scheduler in a -race build. The scheduler's own hand-offs are wrapped in runtime.RaceDisable/RaceEnable and its client-side code is go:norace, so the detector sees exactly avfs's own happens-before edges: two conflicting accesses that both occur in a run and are not ordered by avfs's locks are reported regardless of timing, and the same seed reports the same race. Shrinking and replay run candidates in fresh processes (the detector reports a given race once per process). Sampling, not proof.",
    note="trusted: Go race detector (ThreadSanitizer); visibility of spawn/join edges as in a user program; interleavings at lock granularity (what lies between two lock operations of a client is exactly what the detector judges)", ref="3/C08")
 
+CHECKS["C05"] = dict(engine="E2+E3", level="exploration", technique="deterministic simulation with an invariant monitor after every step (internal graph walk + API walk + effect confinement)",
+   text="Sequential histories biased to aliasing operands (root, self, ancestor/descendant, hard-link aliases, symlinked paths, nested identical names) on MemFS and OrefaFS, each call executed on a simulated client, with the monitor evaluated after every call; concurrent programs under the seeded scheduler with the monitor evaluated on the final tree. Monitor: internal structure walk (hook H4), API-level walk (termination, sorted duplicate-free listings, listed iff Lstat, Nlink = SameFile class size, identical content/attributes through all links), failed calls leave the snapshot unchanged (RemoveAll excepted), successful calls change only the closure of their operands. Sampling, not proof.",
+   note="trusted: the harness's own resolver for the closure of operands; snapshot through the public API; VerifCheck walkers (verif-tagged, in /repo); both OS types are covered for the Linux type only in this build (Windows type: C17)", ref="3/C05")
+
 NA = {
  "C13": "Clean, Join, Split, Dir, Base, IsAbs, Rel, Abs, FromSlash, ToSlash, VolumeName, Match and PathIterator are pure functions of their string arguments and the OS-type constant: there is no schedule, clock, I/O, fault or shared state for a simulator to control; generating strings is input fuzzing, a different technique (DESIGN.md section 4).",
 }
